@@ -162,6 +162,9 @@ def sh(cmd, env=None, cwd=None, timeout=1800):
         return 124, "timeout"
 
 
+NO_TESTS = [False]
+
+
 def run_one(m, clean_trace, do_checks=True):
     tmp = tempfile.mkdtemp(prefix="ms_")
     res = dict(m)
@@ -182,7 +185,9 @@ def run_one(m, clean_trace, do_checks=True):
         else:
             same = open(os.path.join(tmp, "trace.txt")).read() == clean_trace
             res["trace"] = "same" if same else "diff"
-        if res["trace"] != "same":
+        if res["trace"] != "same" and NO_TESTS[0]:
+            res["tests"] = "skipped"
+        elif res["trace"] != "same":
             rc, out = sh("/venv/bin/python -m pytest -x -q -p no:cacheprovider -n 2 tests", env=env, cwd=tmp, timeout=1500)
             last = out.strip().splitlines()[-1] if out.strip() else ""
             res["tests"] = "pass" if (rc == 0 and "passed" in last) else "fail"
@@ -213,7 +218,9 @@ def main():
     ap.add_argument("--jobs", type=int, default=4)
     ap.add_argument("--files", default="")
     ap.add_argument("--list", action="store_true")
+    ap.add_argument("--no-tests", action="store_true", help="do not run the test suite (every behaviour-changing mutant is kept)")
     a = ap.parse_args()
+    NO_TESTS[0] = a.no_tests
     muts = all_mutants(set(a.files.split(",")) if a.files else None)
     if a.list:
         by = {}
